@@ -1,21 +1,25 @@
 """C14 - sparse images round-trip and overlap counting is exact."""
-from verif.units import CUnit
+from verif.units import CUnit, LemmaUnit
+from contracts import specs
 import contracts  # noqa
 from contracts import py_sparse
 
 LEVEL = "other"
 WALL_MS = 60000
-TRUSTED = ["f2py passes contiguous arrays of the declared shapes"]
+TRUSTED = ["f2py passes contiguous arrays of the declared shapes",
+           "count lemmas (0 <= c(n) <= n - lo, monotone and 1-Lipschitz in n) are instantiated, their induction steps are proved in lemma:count"]
 ASSUMPTIONS = ["images of at most 65535 x 65535 pixels"]
 EXPLANATION = ("Proved for all images (tosparse_f32 / u16 / u32): the result is the number of selected pixels (recursive count spec), every entry "
                "is a selected pixel with its value attached, positions strictly increase in row-major order (hence sorted and duplicate free). "
                "sparse_is_sorted returns 0 exactly for strictly row-major sorted input. sparse_overlaps: every reported pair is a common pixel, indices "
-               "strictly increase, tails are zeroed, count bounded. coverlaps: memory safety and count bounds. Bounded (not counted as proved): "
-               "completeness of sparse_overlaps, the matrix entries of coverlaps, mask_to_coo, compress_duplicates and the python glue "
+               "strictly increase, tails are zeroed, count bounded. coverlaps: memory safety and count bounds. mask_to_coo (per-row counts, prefix sums, "
+               "parallel fill): memory safety, data-race freedom, and on success nnz is the last prefix sum, every stored (row, column) is a mask pixel "
+               "inside the image and the entries are strictly sorted row-major. Bounded (not counted as proved): "
+               "completeness of sparse_overlaps, the matrix entries of coverlaps, compress_duplicates and the python glue "
                "(from_data_mask / from_data_cut / to_dense / sort / overlaps_linear / overlaps_matrix) against dictionary and numpy oracles.")
 
 
 def units(ctx):
     keys = ["sparse_image.c:tosparse_f32", "sparse_image.c:tosparse_u16", "sparse_image.c:tosparse_u32", "sparse_image.c:sparse_is_sorted",
-            "sparse_image.c:sparse_overlaps", "sparse_image.c:coverlaps"]
-    return [CUnit(k) for k in keys] + py_sparse.units()
+            "sparse_image.c:sparse_overlaps", "sparse_image.c:coverlaps", "sparse_image.c:mask_to_coo"]
+    return [CUnit(k) for k in keys] + [LemmaUnit("count", specs.count_lemmas)] + py_sparse.units()
